@@ -41,6 +41,12 @@ CHECKS = {
  "C20": dict(cat="exploration", tech="model-based differential monitor: every internal queue driven through its production call patterns against a slice / stable-priority-queue model",
     text="5 000 (quick) / 500 000 (thorough) PRNG operation sequences over LockQueue / LockCommandQueue / LockManagerQueue (all small constructor triples and the production ones), the per-key holder queue (through LockManager.AddLock/RemoveLock/GetLockedLock), the wait queue and (priority) ring queues (through AddWaitLock/GetWaitLock), the long-wait queues (through LockDB.AddTimeOut/AddExpried/RemoveLong*/the sweeper's drain) and the free pools; every returned element, Len, Head, Tail, MaxPriority and the iterated content are compared with a plain model; counters record node-boundary crossings, growths, resizes, representation switches and restructures with holes actually taken. One defect repaired (long-wait queue restructure).",
     note="Operations are only generated in states production can reach (Shrink is never called in production and is not generated; Rellac only on an empty queue; Reset of holder/wait queues only when empty); restrictions are listed in the evidence assumptions.", ref="3/C20"),
+ "C07": dict(cat="exploration", tech="differential monitor over in-process restarts on a virtual clock: client-side history (shadow) + in-package census of the stopped instance vs census of a fresh instance started on the same directory",
+    text="600 (quick) / 30 000 (thorough) PRNG histories (locks, re-locks, updates, unlocks, expiries, time-outs, value operations, persistence flags; shards 1-8, persistence delay 0-3 s, aof buffer 64-4096 bytes, rotation threshold 6 records..8 MiB so that the history spreads over several append files and a rewrite file) are stopped at a quiescent point and restarted on the same directory after an outage of 0-3 virtual seconds; a second (25%: third) workload in a fresh key space and restart follow. Oracle: every hold that counts as persisted from what the clients were told (persist-immediately flag / zero delay, or older than the first sweeper visit after the delay) and is further than its tolerance from its deadline is held again with the same depth, Count, Rcount, a deadline within one unit of its granularity + 1 s (never later) and a value the key had since that hold was taken; never-persist holds are not restored; nothing is held that was not held at the stop; holds restored by one restart survive the next. Compactions are run between two steps; every 2nd/3rd wake-up of a log channel goroutine is delayed to widen the flush-barrier window. Three defects repaired, three recorded as open known findings.",
+    note="In-process restart (instance stopped: log flushed, compactions finished, goroutines ended). Virtual clock one hour ahead of the wall clock, so the loader's wall-clock filter never applies: a hold whose deadline falls into the outage is loaded with remaining time 0. Fast-key table >= 256 slots (findings/fastkey-race). Values of keys that were unheld in between are not compared.", ref="3/C07"),
+ "C08": dict(cat="fault_enumeration", tech="fault enumeration over crash images of the log (byte truncations of the newest append file and its value file) with a metamorphic oracle: state recovered from the image vs states recovered from the whole-record prefixes; second workload + second restart under the C07 oracle",
+    text="96 (quick) / 6 000 (thorough) PRNG histories, each with about 100-150 crash images of its newest append file: header cuts 0..11 bytes, all 63 residues of the last record, a third of the residues of the two records before it, PRNG earlier records, complete records whose value is missing / cut in the length field / cut in the body / short by one byte, record boundaries. Every image is recovered by a fresh instance at the same virtual time: the start must succeed and the snapshot must equal the snapshot recovered from a whole-record prefix ending at or before the cut. On 3 images per history a second workload runs on the recovered instance and a second restart must satisfy the C07 oracle (this is what catches records appended behind a torn tail). Five defect classes repaired by two fixes.",
+    note="Syscall-boundary crashes inside one flush are represented by the value-file cuts (records reach the file before their values); partial writes of the record buffer are the torn-record images. The hook VP_AOF_FLUSH_MID is not used by this check.", ref="3/C08"),
  "C11": dict(cat="fault_enumeration", tech="trace monitor + log-file oracle on a stand-alone leader (acknowledgement = own log flush), faults injected at the acknowledgement handler and at the log file",
     text="On the E1 engine 45% of the lock requests carry the require-ack flag (fresh grants and grants from the wait queue). The monitors decide: SUCCED is reported only after a LOCK record with the require-ack flag for that key/LockId is present in the leader's log files (read at reply time); while the hold awaits acknowledgement other requests for the LockId are answered LOCK_ACK_WAITING and never succeed; a pending hold that times out, is cancelled or whose log write fails ends with exactly one error reply, leaves the census, its value change is undone (value oracle) and waiters are served; nothing leaks after the drain. The pre-emption orders are constructed by injecting ticks (wait time-out), unlock-first / cancel-wait and probes at the entry of the acknowledgement handler; AOF record handling is serialised with the script (hook around AofChannel.Handle), so every execution replays. In a tenth of the scripts the append file's descriptor is closed so that log writes fail, and in a tenth re-entrant re-locks carry the flag: both are open known findings identified by that history. Five defects were repaired.",
     note="Stand-alone leader only: follower acknowledgements (delayed / negative / lost), ack modes and leader demotion need the cluster engine and are not covered by this check. Value operations on require-ack requests are off by default (VERIF_C11_DATA=1).", ref="3/C11"),
@@ -73,7 +79,7 @@ def main():
             "guard": "verif",
             "enable": "go test -tags verif -overlay /verif/.build/overlay.json (harness sources under /verif/harness are mapped into the package as zz_verif_*_test.go)",
             "baseline_off_cmd": "cd /repo && export GOFLAGS=-mod=mod GOPROXY=off GOSUMDB=off GOTOOLCHAIN=local && go test -json -vet=off -count=1 -timeout 25m ./... ; rm -f /repo/server/append.aof.* /repo/server/rewrite.aof*",
-            "source_commits": ["79c291c", "7454dda", "edb93de"],
+            "source_commits": ["79c291c", "7454dda", "edb93de", "23f66f0", "905ad43"],
             "add_only": True,
         },
         "engines": [
